@@ -841,6 +841,9 @@ func c17PairingMemo(c *Ctx, m *types.Var) (bool, string) {
 			continue
 		}
 		for i := 0; i < tn.NumMethods(); i++ {
+			if !tn.Method(i).Exported() {
+				continue
+			}
 			if f := c.a.methodOf(tn, tn.Method(i).Name()); f != nil {
 				entries = append(entries, f)
 			}
